@@ -249,6 +249,13 @@ def run_case(case, rec):
         return
     b = mon2d.make_bpseq(n, pairs, case.get("seq"))
     f = mon2d.facts(mon2d.snapshot(b))
+    # queries that must not disturb the encoders: consumed before them on a share of the cases
+    h = int(core.chash(case)[:2], 16)
+    if h % 3 == 0:
+        list(b.paired())
+    elif h % 3 == 1:
+        any(True for _ in b.paired(only5to3=True))
+        b.sequence
     for attr in ("fcfs", "dot_bracket", "all_dot_brackets"):
         if attr == "dot_bracket" and _max_component(f) > 14:
             rec.skip("optimal.pairs", "component>14-stems:CBC-too-slow")
